@@ -35,8 +35,8 @@ TABLE filled by the harness with the bytes the real peers wrote: `enc m` = the n
 (empty when there is none), `dec raw` = the first message serialised so far (`BNet.sent`) that the table maps to `raw`
 (two clients may write messages with the same text - colliding serials - and different bytes: destination by unique or
 by well-known name; as model messages they are equal).
-  hreset <n> <firstSerial_0> …              -> ok        (`BNet.initH`: every receiver in LINE mode; then, before any step:)
-  hs up|down <c> <hex>                      -> ok        (the remaining handshake bytes in front of that wire of client <c>)
+  hreset <n> <firstSerial_0> …              -> ok        (`BNet.initH` with every link binary; then, before any step:)
+  hs up|down <c> <hex>                      -> ok        (that receiver in LINE mode, these handshake bytes in front of its wire)
   breset <n> <firstSerial_0> …              -> ok        (from now on `call`, `resolve`, `expire`, `quiescent` act on the
                                                           byte-level state; `quiescent` answers `yes` only if `pick` agrees)
   codec <msg text> <hex bytes>              -> ok
@@ -48,7 +48,8 @@ by well-known name; as model messages they are equal).
 Stateless:
   getproxy <nk> {iface}^nk <none | one | many <k>> { inst {iface} | name <name> }^(1|k)
         the caller's knownInterfaces (as far as the argument names them) and the `interfaces=` argument of
-        getRemoteObject                      -> introspect <required names…> | built <names of the proxy's interfaces…>
+        getRemoteObject                      -> introspect <required names…> | built {<name>:<I|K>}*  (I: the instance given,
+                                                K: the definition known under the requested name)
 Effects, in this order: inv(<sender>,<serial>,<path>,<iface>,<member>,[args],<impl id>) exec(<tok>) sent(<msg>)
 done(<serial>,<outcome>).  Outcomes print as the harness sees them: `val,<token>` where the token of
 `callback(body)` (a Python list) is the valcodec list token `L_<n>_<elems>` and `callback(None)` is `N`.
@@ -320,15 +321,22 @@ def handle (s : St) (line : String) : St × String :=
   | "hreset" :: n :: ts =>
     match nat? n, ts.mapM nat? with
     | some n, some firsts =>
-      ({ St.init with bnet := some (BNet.initH n (fun j => firsts.getD j 1) () (fun _ => []) (fun _ => [])) }, "ok")
+      ({ St.init with bnet := some (BNet.initH n (fun j => firsts.getD j 1) (fun _ => ()) (fun _ => ()) (fun _ => [])
+                                      (fun _ => [])) }, "ok")
     | _, _ => bad s "hreset"
   | ["hs", dir, c, hex] =>
     match nat? c, Driver.hexToBytes? hex, s.bnet with
     | some c, some bs, some b =>
-      if dir == "up" then
-        ({ s with bnet := some { b with upWire := fun j => if j = c then bs ++ b.upWire c else b.upWire j } }, "ok")
+      -- = `BNet.initH` with this handshake on this link: the bytes in front of the wire, the receiver in line mode
+      if bs.isEmpty then (s, "ok")
+      else if dir == "up" then
+        ({ s with bnet := some { b with
+            upWire := fun j => if j = c then bs ++ b.upWire c else b.upWire j,
+            busRx := fun j => if j = c then { Txdbus.Proto.St.init false () with firstByte := false } else b.busRx j } }, "ok")
       else
-        ({ s with bnet := some { b with downWire := fun j => if j = c then bs ++ b.downWire c else b.downWire j } }, "ok")
+        ({ s with bnet := some { b with
+            downWire := fun j => if j = c then bs ++ b.downWire c else b.downWire j,
+            cliRx := fun j => if j = c then Txdbus.Proto.St.init true () else b.cliRx j } }, "ok")
     | _, _, _ => bad s "hs"
   | ["codec", text, hex] =>
     match Driver.hexToBytes? hex with
@@ -470,7 +478,16 @@ def handle (s : St) (line : String) : St × String :=
     match pIfaces ts with
     | some (kn, ts) =>
       match pIfacesParam ts with
-      | some (p, []) => (s, showPlan (getRemoteObjectPlan (kn.map (fun i => (i.name, i))) 0 "" p))
+      | some (p, []) =>
+        let known := kn.map (fun i => (i.name, i))
+        match getRemoteObjectPlan known 0 "" p with
+        | .built px =>
+          -- with the ORIGIN of every listed interface: the instance given (I) or the definition known under the name (K)
+          let orig := (p.toList?.getD []).filterMap (fun a => match a with
+            | .inst _ => some "I"
+            | .name n => (assocGet known n).map (fun _ => "K"))
+          (s, " ".intercalate ("built" :: (px.ifaces.zip orig).map (fun x => hs x.1.name ++ ":" ++ x.2)))
+        | plan => (s, showPlan plan)
       | _ => bad s "getproxy param"
     | none => bad s "getproxy known"
   | ["quiescent"] =>
